@@ -484,6 +484,9 @@ func families(cfg *lib.Config, rng *lib.Rng) []family {
 		add("resolve-like", "parsetype", 0, likeTexts)
 		add("resolve-like-wide", "parsetype", 0, resolveLikeWide())
 		add("resolve-time-hash", "parsetype", 0, resolveTimeHash())
+		// the walk over a set of alias declarations (genalias.go), tied to coq/Model/ResolveAlias.v
+		add("resolve-alias-sets", "parsetype", 0, aliasTexts)
+		add("resolve-alias-random", "parsetype", 0, resolveAliasRandom(sc(800, 3000), rng))
 	}
 	return fams
 }
